@@ -390,6 +390,10 @@ class _DataFiles:
                         result.append(pickle.load(input_file))
                 except EOFError:
                     pass
+                except pickle.UnpicklingError:
+                    # An interrupted save leaves a truncated pickle behind.
+                    # Treat a data file that cannot be decoded as absent.
+                    return None
                 if len(result) == 1:
                     return result[0]
                 if len(result) > 1:
